@@ -15,6 +15,12 @@ from ..run import Check, run_jobs, src_hash
 
 PID = 'C09'
 TASKS = ['t0', 't1', 't2']
+
+
+def _fresh(t):
+    """an equal but not identical item: the library's own items are bound methods (clock.stop, interface.stop ...),
+    which are new objects on every attribute access and are found again by equality"""
+    return ''.join(list(t)) if isinstance(t, str) else t
 OPS = [('add', 0), ('add', 1), ('add', 2), ('remove', 0), ('remove', 1), ('remove', 2),
        ('pop',), ('peek',), ('peekmax',), ('empty',), ('clear',), ('iter',)]
 
@@ -56,11 +62,11 @@ def apply_and_check(ctx, q, ref, op, prio, hist, data_fn):
     """apply op to the real queue and the reference; prove agreement"""
     kind = op[0]
     if kind == 'add':
-        t = TASKS[op[1]]
+        t = _fresh(TASKS[op[1]])
         q.add(prio, t)
         ref.add(prio, t)
     elif kind == 'remove':
-        t = TASKS[op[1]]
+        t = _fresh(TASKS[op[1]])
         q.remove(t)
         ref.remove(t)
     elif kind == 'clear':
@@ -257,12 +263,12 @@ def _concrete_ref_check(q, ops, prios):
         if kind == 'drain':
             continue
         if kind == 'add':
-            t = TASKS[op[1]] if isinstance(op[1], int) else op[1]
+            t = _fresh(TASKS[op[1]] if isinstance(op[1], int) else op[1])
             q.add(p, t)
             ref = [e for e in ref if e[2] != t] + [(p, seq, t)]
             seq += 1
         elif kind == 'remove':
-            t = TASKS[op[1]] if isinstance(op[1], int) else op[1]
+            t = _fresh(TASKS[op[1]] if isinstance(op[1], int) else op[1])
             q.remove(t)
             ref = [e for e in ref if e[2] != t]
         elif kind == 'clear':
@@ -413,6 +419,90 @@ def exit_scenario(ctx, concrete=None):
     return {'behav': behav, 'ran': ran}
 
 
+PPAR_MODES = ['single', 'alternating', 'abandoned', 'nested']
+
+
+def ppar_scenario(ctx):
+    """parallel pattern streams: Ppar merges its children by time; every child event comes out exactly once at the time
+    of its own timeline, also when several streams of the same Ppar object are alive at once (alternating), when an
+    earlier stream was abandoned half way, and when the same Ppar object occurs twice inside another Ppar"""
+    from sc3.seq import event as evt
+    from sc3.base import stream as stm
+    from sc3.seq.patterns import eventpatterns as evp, listpatterns as lsp
+    mode = PPAR_MODES[ctx.choose('mode', len(PPAR_MODES))]
+    a = [ctx.real(f'a{i}', 0.125, 2) for i in range(2)]
+    b = [ctx.real(f'b{i}', 0.125, 2) for i in range(2)]
+    rec = {'kind': 'ppar', 'mode': 'nrt', 'sel': {'mode': PPAR_MODES.index(mode)}, 'names': ['a0', 'a1', 'b0', 'b1']}
+    data = {'key': f'c09:ppar:{mode}', 'replay': rec}
+    expected = {}
+    ch = []
+    for base, ds in ((200.0, a), (300.0, b)):
+        ch.append(evp.Pbind({'freq': lsp.Pseq([base + k for k in range(len(ds))]), 'dur': lsp.Pseq(list(ds))}))
+        acc = 0
+        for k, du in enumerate(ds):
+            expected[base + k] = acc
+            acc = acc + du
+    pat = evp.Ppar(*ch)
+    copies = 1
+    if mode == 'nested':
+        pat = evp.Ppar(pat, pat)
+        copies = 2
+
+    def step(st):
+        """advance one stream by one event; st = [stream, now, trace, done]"""
+        if st[3]:
+            return
+        try:
+            ev = st[0].next(evt.event({'k': 1}))
+        except stm.StopStream:
+            st[3] = True
+            return
+        if not evt.is_rest(ev):
+            st[2].append((ev.get('freq'), st[1]))
+        d = ev('delta')
+        ctx.prove(symx._real(symx._t(d)) >= 0, 'a parallel pattern stream goes back in time (negative delta)', data)
+        st[1] = st[1] + d
+    with symx.shims():
+        streams = []
+        if mode == 'abandoned':
+            s0 = [pat.__stream__(), 0, [], False]
+            step(s0)
+        n = 2 if mode == 'alternating' else 1
+        streams = [[pat.__stream__(), 0, [], False] for _ in range(n)]
+        for _ in range(24):
+            for st in streams:
+                step(st)
+            if all(st[3] for st in streams):
+                break
+    for k, st in enumerate(streams):
+        if not st[3]:
+            raise Violation(f'Ppar ({mode}): stream {k} has not ended after 24 events', None, data)
+        got = {}
+        for tag, when in st[2]:
+            got.setdefault(float(tag), []).append(when)
+        for tag, when in expected.items():
+            if len(got.get(tag, [])) != copies:
+                raise Violation(f'Ppar ({mode}): stream {k} yields event {tag} {len(got.get(tag, []))} times instead of '
+                                f'{copies} (trace {[t for t, _ in st[2]]})', None, data)
+            for w in got[tag]:
+                x, y = symx._coerce(symx._t(w), symx._t(when))
+                ctx.prove(x == y, f'Ppar ({mode}): event {tag} is not at the time of its own child\'s timeline', data)
+        if sum(len(v) for v in got.values()) != copies * len(expected):
+            raise Violation(f'Ppar ({mode}): stream {k} yields extra events {sorted(got)}', None, data)
+    ctx.note('ppar:' + mode)
+    return {'mode': mode}
+
+
+def job_ppar(j):
+    st = explore(ppar_scenario, max_paths=20000, timeout_ms=10000, stop_on_violation=True)
+    d = st.as_dict()
+    for v in d['violations']:
+        rec = v['data']['replay']
+        rec['values'] = {n: (v['model'] or {}).get(n) for n in rec['names']}
+        rec['what'] = v['what']
+    return d
+
+
 def ctx_model(ctx):
     try:
         return ctx.model()
@@ -452,6 +542,29 @@ def replay(rec):
                 return None
         try:
             exit_scenario(C())
+        except Violation as v:
+            return v.what
+        return None
+    if rec['kind'] == 'ppar':
+        class C2:
+            obligations = discharged = 0
+
+            def choose(self, name, n):
+                return rec['sel'][name]
+
+            def real(self, name, *a, **k):
+                v = rec.get('values', {}).get(name)
+                return float(v) if v is not None else 1.0
+
+            def note(self, s):
+                pass
+
+            def prove(self, cond, what='', data=None):
+                ok = cond if isinstance(cond, bool) else z3.is_true(z3.simplify(cond))
+                if not ok:
+                    raise Violation(what, None, data)
+        try:
+            ppar_scenario(C2())
         except Violation as v:
             return v.what
         return None
@@ -520,6 +633,9 @@ def main(tier, seed):
     for r in run_jobs('vf.props.c09', 'job_exit', [dict()], 'nrt'):
         chk.add('exit_actions', r)
     chk.require_notes('exit_actions', ['exit'] + ['exit:' + b for b in EXIT_BEHAV])
+    for r in run_jobs('vf.props.c09', 'job_ppar', [dict()], 'nrt'):
+        chk.add('parallel_streams', r)
+    chk.require_notes('parallel_streams', ['ppar:' + m_ for m_ in PPAR_MODES])
     # init establishes the invariant
     q = tq.TaskQueue()
     if not (q._queue == [] and q._entry_finder == {} and q._removed_counter == 0 and q.empty()):
